@@ -3,6 +3,7 @@ use crate::define::*;
 use crate::descriptor::DescriptorManager;
 use crate::error::Error;
 use crate::function::InnerFunctionManager;
+use crate::keyword;
 use crate::operator::{InfixOpManager, InfixOpType, PostfixOpManager, PrefixOpManager};
 use crate::token::{DelimTokenType, Token};
 use crate::tokenizer::Tokenizer;
@@ -608,6 +609,9 @@ impl<'a> Parser<'a> {
     }
 
     fn parse_unary(&mut self, op: &'a str) -> Result<ExprAST<'a>> {
+        if !keyword::is_prefix_op(op) {
+            return Err(Error::UnexpectedToken());
+        }
         self.next()?;
         Ok(ExprAST::Unary(op, Box::new(self.parse_primary()?)))
     }
